@@ -14,6 +14,12 @@ def quiet_ccp():
     global _quiet
     import warnings
     warnings.filterwarnings("ignore", category=SyntaxWarning)
+    if not os.path.isfile(os.path.join(REPO, "ciscoconfparse2", "__init__.py")):
+        # without this the import below silently falls through to the editable install of /repo at the end of sys.path
+        raise RuntimeError(f"CCP2_REPO={REPO} contains no ciscoconfparse2 package (was the scratch tree removed while "
+                           f"the check was running?)")
+    if sys.path[0] != REPO:
+        sys.path.insert(0, REPO)
     import ciscoconfparse2  # noqa: F401
     if not _quiet:
         from loguru import logger
